@@ -295,7 +295,7 @@ class World:
                         self.problem(("C09",), "reject-changed-state", "unknown pool refused but pools changed")
                 self.ended = "rejected:" + reason
                 return
-            if self.soft_reject is not None and "Overallocated" in str(exc):
+            if self.soft_reject is not None and isinstance(exc, AssertionError):
                 self.ev("rejected:float-boundary-batch")
                 self.ended = "rejected:float-boundary"
                 return
